@@ -46,6 +46,9 @@ type Run struct {
 
 // borrow runs rules written for another property and files the selected obligations under this one.
 func (r *Run) borrow(keep []string, from, to string, f func()) {
+	if r.keep != nil {
+		return // no nested borrowing: the borrowed rule set is evaluated for its own rules only
+	}
 	r.keep, r.rename = keep, [2]string{from, to}
 	defer func() { r.keep, r.rename = nil, [2]string{} }()
 	f()
